@@ -33,4 +33,15 @@ MUTANTS = [
     dict(name="c02-split-time-uses-kick-coeff", props=["C02"], only="ABAs5o6H", edits=[(IT, "            current_time = current_time + timestep * self.tableau_intermediate[stage, 1]", "            current_time = current_time + timestep * self.tableau_intermediate[stage, 2]")]),
     dict(name="c02-implicit-weights-row1", props=["C02"], only="RadauIIA5", edits=[(IT, "            self.dState = timestep * D.ar_numpy.sum(self.stage_values * self.tableau_final[0, 1:], axis=-1)", "            self.dState = timestep * D.ar_numpy.sum(self.stage_values * self.tableau_final[-1, 1:], axis=-1)")]),
     dict(name="c02-refactor-sum-order-quiet", props=["C02"], only="RK4", expect="quiet", edits=[(RK, "intermediate_stages_in[...,nonzero_coeffs_mask] * stage_coeffs[nonzero_coeffs_mask]", "stage_coeffs[nonzero_coeffs_mask] * intermediate_stages_in[...,nonzero_coeffs_mask]")]),
+    # ---- C11
+    dict(name="c11-radau5-a11-third-digit", props=["C11"], only="RadauIIA5", edits=[(IM, "        [[(4 - s) / 10, (88 - 7 * s) / 360, (296 - 169 * s) / 1800, (-2 + 3 * s) / 225],", "        [[(4 - s) / 10, (88 - 7 * s) / 370, (296 - 169 * s) / 1800, (-2 + 3 * s) / 225],")]),
+    dict(name="c11-gauss4-a12-sign-flip-pole", props=["C11"], only="GaussLegendre4", edits=[(IM, "        [[0.5 - s / 6, 0.25, 0.25 - s / 6],", "        [[0.5 - s / 6, 0.25, 0.25 + s / 6],")]),
+    dict(name="c11-radauIIA3-a22-sign-flip-pole", props=["C11"], only="RadauIIA3", edits=[(IM, "         [1, 3 / 4, 1 / 4]], dtype=numpy.float64", "         [1, 3 / 4, -1 / 4]], dtype=numpy.float64")]),
+    dict(name="c11-radauIA3-b-weights-swapped", props=["C11"], only="RadauIA3", edits=[(IM, "        [[0, 1 / 4, 3 / 4]], dtype=numpy.float64", "        [[0, 3 / 4, 1 / 4]], dtype=numpy.float64")]),
+    dict(name="c11-radau19-a10_3-third-digit", props=["C11"], only="RadauIIA19", edits=[(IM, "            0.1195967158571898566882859830801363758258364741540254585528364764,", "            0.1185967158571898566882859830801363758258364741540254585528364764,")]),
+    dict(name="c11-lobattoIIIA4-a21-third-digit", props=["C11"], only="LobattoIIIA4", edits=[(IM, "         [0.5, 5 / 24, 1 / 3, -1 / 24],", "         [0.5, 5 / 25, 1 / 3, -1 / 24],")]),
+    dict(name="c11-residual-reads-c-column", props=["C11"], only="GaussLegendre4-step", edits=[(IT, "                initial_state + timestep * D.ar_numpy.sum(tbl[1:] * __aux_states, axis=-1), **constants)\n            for tbl in self.tableau_intermediate\n        ], axis=-1)\n        __states", "                initial_state + timestep * D.ar_numpy.sum(tbl[:-1] * __aux_states, axis=-1), **constants)\n            for tbl in self.tableau_intermediate\n        ], axis=-1)\n        __states")]),
+    dict(name="c11-refactor-weights-and-fractions-quiet", props=["C11"], expect="quiet", edits=[
+        (IT, "            self.dState = timestep * D.ar_numpy.sum(self.stage_values * self.tableau_final[0, 1:], axis=-1)", "            self.dState = D.ar_numpy.sum(timestep * self.tableau_final[0, 1:] * self.stage_values, axis=-1)"),
+        (IM, "        [[1 / 3, 5 / 12, -1 / 12],", "        [[2 / 6, 10 / 24, -2 / 24],")]),
 ]
